@@ -31,8 +31,10 @@ ASSUMPTIONS = [
 REQUIRED = {"instances": 300, "eval.post": 5000}
 MIN_NONTRIVIAL = {"quick": 40, "thorough": 150}
 PLAN = [("unc", 100, 1500), ("box", 160, 2400), ("eq", 140, 2100),
-        ("interval", 160, 2400), ("ball", 120, 1800)]
-TAU = {"unc": 1e-3, "box": 1e-3, "eq": 1e-3, "interval": 1e-3, "ball": 1e-2}
+        ("interval", 160, 2400), ("ball", 120, 1800),
+        ("interval_tie", 60, 900)]
+TAU = {"unc": 1e-3, "box": 1e-3, "eq": 1e-3, "interval": 1e-3, "ball": 1e-2,
+       "interval_tie": 1e-3}
 WALL_BUDGET = {"quick": 1200, "thorough": 7200}
 
 
@@ -48,6 +50,36 @@ def far(rng, n, dist):
 def make(case):
     rng = e2e.rng_of(ID, case)
     fam = case["fam"]
+    if fam == "interval_tie":
+        # one variable; the solution sits on the end of the interval cut by a
+        # linear inequality; x0 lies exactly on a second, looser inequality
+        # with the SAME coefficient (tie in the working-set factorisation)
+        qv = float(10 ** rng.uniform(-0.5, 1))
+        sgn = float(rng.choice([-1.0, 1.0]))
+        end = float(rng.uniform(-2, 2))          # active end of the interval
+        cv = end + sgn * float(rng.uniform(0.3, 4))   # centre beyond the end
+        u = rng.random()
+        gap = float(rng.uniform(0.1, 1.0)) if u < 0.4 else (
+            float(rng.choice([0.5, 1.0, 2.0, 3.0])) if u < 0.6
+            else float(rng.uniform(1.0, 6.0)))
+        sc = float(rng.choice([1.0, 1.0, 0.5, 2.0, rng.uniform(0.5, 2)]))
+        rows = [[sgn * sc], [sgn * sc]]
+        ubs = [sgn * sc * end, sgn * sc * (end + sgn * gap)]
+        if rng.random() < 0.5:                   # the other end, far away
+            other = end - sgn * float(rng.uniform(1, 5))
+            rows.append([-sgn * float(rng.uniform(0.5, 2))])
+            ubs.append(rows[-1][0] * other)
+        if rng.random() < 0.5:
+            order = rng.permutation(len(rows))
+            rows = [rows[i] for i in order]
+            ubs = [ubs[i] for i in order]
+        x0 = np.array([end + sgn * gap])
+        spec = {"n": 1, "obj": {"kind": "quad", "Q": [[qv]], "c": [cv],
+                                "g": [0.0]}, "options": None,
+                "con_kind": "lin", "x0": x0.tolist(),
+                "lin": [{"A": rows, "lb": [-np.inf] * len(rows),
+                         "ub": ubs}], "interval_mode": "tie"}
+        return spec, np.array([end]), 1, "infeasible"
     n = 1 if fam == "interval" else int(rng.integers(1, 6))
     q = gen.spd(rng, n, cond=float(10 ** rng.uniform(0, 2)))
     c = rng.uniform(-2, 2, n)
@@ -148,6 +180,34 @@ def make(case):
         active = int(xs[0] <= lo + 1e-9 or xs[0] >= hi - 1e-9)
         sgn = float(rng.choice([-1.0, 1.0]))
         x0 = np.array([xs[0] + sgn * dist])
+        if rng.random() < 0.25 and mode in ("lin", "bounds+lin", "mixed"):
+            # x0 exactly ON the boundary of a redundant, looser linear
+            # inequality (active at x0, not at the solution); only on a side
+            # where x0 stays inside the bounds (it is projected otherwise)
+            gap = float(rng.uniform(0.5, 3))
+            sides = []
+            if not np.isfinite(ub1) or hi + gap <= ub1:
+                sides.append("right")
+            if not np.isfinite(lb1) or lo - gap >= lb1:
+                sides.append("left")
+            if sides:
+                side_ = str(rng.choice(sides))
+                s3 = float(rng.choice([0.5, 1.0, 2.0]))
+                if rng.random() < 0.6 and rows:
+                    # same scaling as the row that cuts this side (ties in
+                    # the working-set factorisation)
+                    s3 = abs(float(rows[0][0])) if side_ == "right" \
+                        else abs(float(rows[-1][0]))
+                if side_ == "right":
+                    far_pt = hi + gap
+                    rows.append([s3]); lbs.append(-np.inf)
+                    ubs.append(s3 * far_pt)
+                else:
+                    far_pt = lo - gap
+                    rows.append([-s3]); lbs.append(-np.inf)
+                    ubs.append(-s3 * far_pt)
+                x0 = np.array([far_pt])
+                mode += "+x0_on_redundant_row"
         side = "infeasible" if (x0[0] < lo or x0[0] > hi) else "feasible"
         if np.isfinite(lb1) or np.isfinite(ub1):
             spec["bounds"] = {"lb": [lb1], "ub": [ub1], "form": "Bounds"}
